@@ -51,8 +51,6 @@ def parse(buf, pos, end=None, flags=None):
         if c < 0x30 or c > 0x39:
             raise Malformed("nondigit-length", i)
         i += 1
-        if i - pos > 40:
-            raise Malformed("huge-length", i)
     digits = buf[pos:i]
     if i == pos:
         if flags is not None:
@@ -105,11 +103,12 @@ def dos_decode(b):
 
 class Package:
     """one QMTP package or the QMQP package as the documents read it"""
-    __slots__ = ("ok", "reason", "body", "sender", "rcpts", "flags", "end", "dos")
+    __slots__ = ("ok", "reason", "field", "body", "sender", "rcpts", "flags", "end", "dos")
 
     def __init__(self):
         self.ok = False
-        self.reason = None
+        self.reason = None      # why the package is malformed / incomplete
+        self.field = None       # ... and in which field: message, sender, recipients (the list frame), recipient
         self.body = None
         self.sender = None
         self.rcpts = None
@@ -128,19 +127,24 @@ def qmtp_packages(wire):
         p = Package()
         out.append(p)
         try:
+            p.field = "message"
             msg, q = parse(wire, pos, flags=p.flags)
             if len(msg) == 0:
-                raise Malformed("empty-message", pos)
+                raise Malformed("empty", pos)
             if msg[0] == 10:
                 p.body = msg[1:]
             elif msg[0] == 13:
                 p.dos = True
                 p.body = dos_decode(msg[1:])
             else:
-                raise Malformed("bad-message-type", pos)
+                raise Malformed("bad-type-byte", pos)
+            p.field = "sender"
             p.sender, q = parse(wire, q, flags=p.flags)
+            p.field = "recipients"
             rl, q = parse(wire, q, flags=p.flags)
+            p.field = "recipient"
             p.rcpts = parse_list(rl, flags=p.flags)
+            p.field = None
             p.ok = True
             p.end = q
             pos = q
@@ -154,11 +158,23 @@ def qmqp_package(wire):
     """the single QMQP package; bytes after it are not part of the protocol and are ignored"""
     p = Package()
     try:
+        p.field = "package"
         blob, q = parse(wire, 0, flags=p.flags)
-        parts = parse_list(blob, flags=p.flags)
+        # which inner string is broken: message, sender or a recipient
+        parts = []
+        pos = 0
+        while pos < len(blob):
+            p.field = ("message", "sender")[len(parts)] if len(parts) < 2 else "recipient"
+            try:
+                d, pos = parse(blob, pos, flags=p.flags)
+            except Malformed as e:
+                raise Malformed("overrun" if e.reason == "truncated" else e.reason, e.pos)
+            parts.append(d)
         if len(parts) < 2:
-            raise Malformed("missing-sender" if parts else "missing-message", 0)
+            p.field = ("message", "sender")[len(parts)]
+            raise Malformed("missing", 0)
         p.body, p.sender, p.rcpts = parts[0], parts[1], parts[2:]
+        p.field = None
         p.ok = True
         p.end = q
     except Malformed as e:
